@@ -229,6 +229,29 @@ def run_stuck(ctx, res, sigs=None):
     return done
 
 
+def run_idleout(ctx, res, sigs=None, only=None):
+    """sessions ended by ping timeout next to bystanders who answer (sircv/idleout.py); `sigs`: prefixes of finding
+    signatures that concern the calling property (None = all), `only`: the opposite filter"""
+    import multiprocessing
+    from .. import idleout
+    binary, hooks = ctx.binary()
+    cfgs = [(3, 2), (4, 1)] if ctx.quick else [(3, 2), (4, 1), (3, 3), (5, 2), (3, 1), (4, 4)]
+    jobs = [(binary, hooks, ctx.seed, P, Q) for P, Q in cfgs]
+    with multiprocessing.Pool(len(jobs)) as pool:
+        outs = pool.map(idleout.run_case, jobs)
+    for o in outs:
+        if o["inconclusive"]:
+            res.inconclusive += 1
+            res.inconclusive_notes.append(o["inconclusive"][:200])
+            continue
+        res.evaluations += o["events"]
+        res.distinct.add(repr(o["cls"]))
+        for sig, detail in o["findings"]:
+            if sigs is None or any(sig.startswith(x) for x in sigs):
+                res.findings.append(Finding(sig, detail, {"engine": "idleout", "config": o["cls"]}))
+    res.extra["ping_timeout_endings"] = res.extra.get("ping_timeout_endings", 0) + 5 * sum(1 for o in outs if not o["inconclusive"])
+
+
 def case_twin_scenario():
     """users whose nicknames differ in letter case only are different users: each aims user-mode changes, OPER-gained
     status and queries at the others"""
